@@ -33,11 +33,11 @@ LATIN = ["a,b", 'q"q', "l\nm", "r\r\ns", "c\rd", "t\tu", "p;q", "v|w", " lead", 
 NAMES = ["a", "b", "c d", "é", "x,y", "n1", 'q"', "items"]
 
 KINDS = {
-    "pickle": ["f", "i", "b", "s", "u", "d", "t", "td", "o", "ob"],
-    "npz": ["f", "i", "b", "s", "u", "d", "t", "td", "o", "ob"],
+    "pickle": ["f", "i", "b", "s", "u", "d", "t", "td", "o", "ob", "f32", "i32"],
+    "npz": ["f", "i", "b", "s", "u", "d", "t", "td", "o", "ob", "f32", "i32"],
     "parquet": ["f", "i", "b", "s", "d", "t", "ob"],
-    "csv": ["f", "i", "b", "s", "d", "t"],
-    "json": ["f", "i", "b", "s", "d", "t", "ob"],
+    "csv": ["f", "i", "b", "s", "d", "t", "f32"],
+    "json": ["f", "i", "b", "s", "d", "t", "ob", "f32"],
 }
 CSV_T = [None, "1970-01-01T00:00:00.000001", "1969-12-31T23:59:59", "2020-12-31T12:00:00", "1700-01-01T00:00:00",
          "2199-12-31T23:59:59.999999"]
@@ -93,13 +93,23 @@ def _frame_plan(draw, max_rows):
                     vals[0] = "xtext"
         elif kind == "t" and fmt == "csv":
             vals = [draw(st.sampled_from(CSV_T)) for _ in range(n)]
+        elif kind == "f32":
+            vals = [draw(st.sampled_from([0.1, 1.0 / 3.0, 2.5, -1e-3, 16777217.0, gen.NAN])) for _ in range(n)]
+            vals = [float(np.float32(v)) for v in vals]          # the exact value the float32 column will hold
+        elif kind == "i32":
+            vals = [draw(st.sampled_from([0, 1, -7, 2**31 - 1, -2**31])) for _ in range(n)]
         else:
             vals = draw(gen.values(kind, n))
         if fmt == "csv" and k == 1:
-            repl = {"f": 1.5, "s": "xv", "d": "2020-01-01", "t": "2020-12-31T12:00:00"}
+            repl = {"f": 1.5, "f32": 1.5, "s": "xv", "d": "2020-01-01", "t": "2020-12-31T12:00:00"}
             vals = [repl[kind] if build.plan_isna(kind, v) else v for v in vals]
         cols.append({"name": nm, "kind": kind, "vals": vals})
-    return {"obj": "frame", "fmt": fmt, "suffix": suffix, "opts": opts, "frame": {"n": n, "cols": cols}}
+    plan = {"obj": "frame", "fmt": fmt, "suffix": suffix, "opts": opts, "frame": {"n": n, "cols": cols}}
+    if fmt in ("csv", "json") and draw(st.integers(0, 3)) == 0:
+        # history: an earlier write of another frame with other options in the same process
+        plan["prior"] = {"header": draw(st.booleans()), "sep": draw(st.sampled_from([",", ";", "|"])),
+                         "encoding": draw(st.sampled_from(["utf-8", "latin-1"])), "indent": draw(st.sampled_from([None, 0]))}
+    return plan
 
 
 @st.composite
@@ -132,7 +142,10 @@ def _lod_plan(draw, max_rows):
                     continue        # ragged
                 it[k] = draw(st.one_of(st.none(), st.booleans(), st.integers(-2**60, 2**60), st.sampled_from(special),
                                        st.sampled_from([0.5, -0.0, 1e300])))
-        items.append(it)
+        pairs = [[k, v] for k, v in it.items()]
+        if draw(st.booleans()):
+            pairs = list(draw(st.permutations(pairs)))                      # same keys, another insertion order
+        items.append([list(p) for p in pairs])                              # pairs keep the order in JSON replays
     if fmt == "csv" and not opts.get("header", True):
         # without a header the generated names a, b, ... are the documented result
         pass
@@ -153,7 +166,7 @@ def nontrivial(plan):
     if plan["obj"] == "frame":
         cells = [(c["kind"], v, j) for c in plan["frame"]["cols"] for j, v in enumerate(c["vals"])]
         return opt and any(_special(v) or (j == 0 and k in ("s", "o") and build.plan_isna(k, v)) for k, v, j in cells)
-    return opt and any(_special(v) for it in plan["items"] for v in it.values())
+    return opt and any(_special(v) for it in _items(plan) for v in it.values())
 
 
 EXT = {"pickle": ".pkl", "npz": ".npz", "parquet": ".parquet", "csv": ".csv", "json": ".json"}
@@ -202,6 +215,14 @@ def check(plan, ctx):
     names = list(src)
     kinds = {c["name"]: c["kind"] for c in fp["cols"]}
     missing = {c["name"]: [build.plan_isna(c["kind"], v) for v in c["vals"]] for c in fp["cols"]}
+    if plan.get("prior"):
+        pr = plan["prior"]
+        small = di.DataFrame(q=[1, 2], r=["x", "y"])
+        if fmt == "csv":
+            small.write_csv(ctx.path("prior.csv"), header=pr["header"], sep=pr["sep"], encoding=pr["encoding"])
+        else:
+            small.write_json(ctx.path("prior.json"), encoding=pr["encoding"], indent=pr["indent"])
+        ctx.cls("after_a_prior_write")
     path = ctx.path("data" + EXT[fmt] + suffix)
     writer = lambda p: getattr(data, "write_" + fmt)(p, **opts)
     ctx.call(f"write_{fmt}", writer, path)
@@ -241,9 +262,14 @@ def check(plan, ctx):
             raise Violation("parquet: dtype differs after write/read", column=cn, got=build.dtype_tag(col), want=tag)
 
 
+def _items(plan):
+    """Items as dicts in their planned key order (plans store [key, value] pairs; old replays store dicts)."""
+    return [dict(it) if not isinstance(it, dict) else dict(it) for it in plan["items"]]
+
+
 def _check_lod(plan, ctx):
     fmt, suffix, opts = plan["fmt"], plan["suffix"], dict(plan["opts"])
-    items = plan["items"]
+    items = _items(plan)
     data = di.ListOfDicts([dict(x) for x in items])
     path = ctx.path("list" + EXT[fmt] + suffix)
     writer = lambda p: getattr(data, "write_" + fmt)(p, **opts)
@@ -258,7 +284,11 @@ def _check_lod(plan, ctx):
     got = [dict(x) for x in back]
     want = [dict(x) for x in items]
     if fmt == "csv":
-        keys = plan["keys"]
+        keys = []                                   # file column order = first-seen key order over the items
+        for it in items:
+            for k in it:
+                if k not in keys:
+                    keys.append(k)
         if opts.get("header") is False:
             gen_names = list("abcdefgh")[:len(keys)]
             want = [{g: x[k] for g, k in zip(gen_names, keys)} for x in want]
@@ -278,7 +308,7 @@ def _lone_cr(v):
 
 def _r36(plan, v):
     return (plan["obj"] == "lod" and plan["fmt"] == "csv" and v.what.startswith("ListOfDicts csv: items differ")
-            and any(_lone_cr(x) for it in plan["items"] for x in it.values()))
+            and any(_lone_cr(x) for it in _items(plan) for x in it.values()))
 
 
 KNOWN = {"R37-npz-path-with-compression-suffix": _r37, "R36-lod-csv-lone-carriage-return": _r36}
